@@ -252,6 +252,24 @@ def run(R, tier):
                     viol('callable-operand', f'a nested callable on the {side} of {sym} is not replaced by its value with the operand order kept',
                          algebra=spec, op=sym, side=side)
 
+        # 4b. a list of elements of ONE grade, each storing the same number of coefficients on DIFFERENT blades (basis vectors, axis
+        #     planes): every element is combined on its own blades
+        g1 = [k for k in canon if bin(k).count('1') == 1]
+        if len(g1) >= 2:
+            frame = [oc.make_mv(alg, [k], [float(i_ + 2)]) for i_, k in enumerate(g1)]
+            for sym in ('*', '>>', '^', '+'):
+                for side in ('left', 'right'):
+                    R.count('clause=sequence-same-shape'); R.case(('seq-frame', algs.describe(spec), sym, side, tuple(kc)), True)
+                    try:
+                        got = PY[sym](frame, c) if side == 'left' else PY[sym](c, frame)
+                        want = [PY[sym](e_, c) if side == 'left' else PY[sym](c, e_) for e_ in frame]
+                    except Exception as e:  # noqa
+                        viol('sequence-raises', f'list of basis vectors on the {side} of {sym} raised {type(e).__name__}: {e}'[:200], algebra=spec, op=sym, side=side); continue
+                    if len(got) != len(want) or not all(same(items(g_), items(w_)) for g_, w_ in zip(got, want)):
+                        viol('sequence-operand', f'[e_i ...] {sym} c with the list of weighted basis vectors {[dict(zip(e_.keys(), e_.values())) for e_ in frame]} on the {side}: '
+                                                 f'element-wise results differ ({[dict(zip(g_.keys(), g_.values())) for g_ in got]} vs {[dict(zip(w_.keys(), w_.values())) for w_ in want]}) '
+                                                 f'in Algebra({algs.describe(spec)}), c keys {kc}', algebra=spec, op=sym, side=side, container='list',
+                             c=[(k, float(v)) for k, v in zip(c.keys(), c.values())])
         # 5. division with a sequence / callable / array of elements on the left: `other / c` is other * c.inv() element by
         #    element, in this order (c an invertible element that does not commute with the numerators)
         nn = [k for k in canon if k and bin(k).count('1') == 1 and sig[int(k).bit_length() - 1] != 0]
